@@ -35,8 +35,8 @@ type tierCfg struct {
 }
 
 var tiers = map[string]tierCfg{
-	"quick":    {name: "quick", corpusSize: 5400, isoSample: 200, procs: 160, runs: 250, maxStep: 600000, procWall: 5 * time.Minute},
-	"thorough": {name: "thorough", corpusSize: 12000, isoSample: -1, procs: 1500, runs: 800, maxStep: 600000, selftest: true, procWall: 20 * time.Minute},
+	"quick":    {name: "quick", corpusSize: 6200, isoSample: 200, procs: 160, runs: 250, maxStep: 600000, procWall: 5 * time.Minute},
+	"thorough": {name: "thorough", corpusSize: 13000, isoSample: -1, procs: 1500, runs: 800, maxStep: 600000, selftest: true, procWall: 20 * time.Minute},
 }
 
 var (
